@@ -106,6 +106,17 @@ type c04Run struct {
 	l1human  []string
 	okClaims int
 	rejected int
+	hooks    map[string]Hook // hook payloads built by the generator: hex(raw tx) -> structural description
+}
+
+// the relay of an event whose data is a hook tx the generator built itself carries the
+// structural description of that tx for the model; any other non-empty data is undecodable
+func (x *c04Run) relayOpFor(ev L1DepEvent, executor string) L2Op {
+	op := relayOp(ev, executor)
+	if h, ok := x.hooks[hex.EncodeToString(ev.Data)]; ok && len(ev.Data) > 0 {
+		op.Hook = h
+	}
+	return op
 }
 
 func (x *c04Run) viol(step int, sig, what string) {
@@ -154,7 +165,7 @@ func okStr(b bool) string {
 func (x *c04Run) relay(ev L1DepEvent) []WEvent {
 	sc := x.sc
 	exec := sc.SenderString(0)
-	op := relayOp(ev, exec)
+	op := x.relayOpFor(ev, exec)
 	sc.register(op.Sender, op.To)
 	res := sc.Case.Do(op)
 	x.rep.Hist("l2relay:" + okStr(res.OK))
@@ -303,7 +314,7 @@ func (x *c04Run) oversize(di int) {
 func newC04Run(rep *Report, seed uint64, id int, shapeOff int, nDenoms int, rich bool) *c04Run {
 	sc := NewL2Scenario(seed, id, false)
 	e2 := sc.Env
-	x := &c04Run{rep: rep, id: id, r: NewRng(seed ^ 0xc04c04), sc: sc, B: sc.BridgeID, now: t0, height: 100}
+	x := &c04Run{rep: rep, id: id, r: NewRng(seed ^ 0xc04c04), sc: sc, B: sc.BridgeID, now: t0, height: 100, hooks: map[string]Hook{}}
 	for i := 0; i < nDenoms; i++ {
 		d := c04DenomShapes[(shapeOff+i)%len(c04DenomShapes)]
 		x.bases = append(x.bases, d)
@@ -583,6 +594,33 @@ func genC04(seed uint64, tier string, outdir string) *Report {
 		if k == 0 {
 			rep.Sample(map[string]interface{}{"kind": "boundary case: L2 ops", "ops": opsCoq(x.sc.Case.Ops)})
 		}
+	}
+	// (a') withdrawals made by deposit hooks (a tx signed by the recipient carrying
+	//      MsgInitiateTokenWithdrawal, D14) are recorded events like any other and must be claimable
+	for k := 0; k < 2; k++ {
+		id++
+		y := newC08Run(rep, seed*6007+uint64(k), id, 2)
+		for j := 0; j < 12; j++ {
+			switch j % 4 {
+			case 0, 2:
+				y.stepHookWithdrawal()
+			case 1:
+				y.stepDeposit(y.r.Weighted([]int{60, 15, 8, 17}), c04Amount(y.r), nil, "")
+				y.stepRelay(y.relayed)
+			default:
+				y.stepWithdraw()
+			}
+		}
+		for y.relayed < len(y.events) {
+			y.stepRelay(y.relayed)
+		}
+		tree, _, _ := y.commitAndClaim()
+		rep.Ops += len(y.c1.Ops) + len(y.sc.Case.Ops)
+		rep.Hist("case:hook-withdrawals")
+		rep.Hist(fmt.Sprintf("tree-size:%d", len(y.leaves)))
+		rep.CountCase(strings.Join(l1OpsHuman(y.c1.Ops), "\n")+"\n"+strings.Join(opsCoq(y.sc.Case.Ops), "\n"), y.okClaims > 0 && y.rejected > 0)
+		texts1 = append(texts1, y.coq(tree))
+		texts2 = append(texts2, y.sc.Case.Coq())
 	}
 	// (b) every tree size, every position
 	maxN := 33
